@@ -203,6 +203,33 @@ func classifyConfig(valid, mut []byte) string {
 	return "well-formed"
 }
 
+// nameTree is the nesting of family names of a configuration.
+func nameTree(c st.ConfigDistribution) string {
+	s := c.Name + "("
+	for _, d := range c.Distributions {
+		s += nameTree(d) + ","
+	}
+	return s + ")"
+}
+
+func shapeOf(d any) string {
+	switch x := d.(type) {
+	case interface{ Dims() (int, int) }:
+		var r, c int
+		if p := fw.Call(func() { r, c = x.Dims() }); p != nil {
+			return "?"
+		}
+		return fmt.Sprint(r, "x", c)
+	case interface{ Dim() int }:
+		var n int
+		if p := fw.Call(func() { n = x.Dim() }); p != nil {
+			return "?"
+		}
+		return fmt.Sprint(n)
+	}
+	return ""
+}
+
 func malformedConfigCase(cs *fw.Case) {
 	const monitor = "malformed.config"
 	r := cs.R
@@ -294,9 +321,18 @@ func malformedConfigCase(cs *fw.Case) {
 			msg = "GetParameters panics: " + pp.Msg + " @ " + pp.Frame
 			return
 		}
-		dec.ExportConfig()
-		if reflect.TypeOf(dec) != reflect.TypeOf(in.Dist) {
-			return // another family was named: the probes do not apply
+		ec := dec.ExportConfig()
+		if reflect.TypeOf(dec) != reflect.TypeOf(in.Dist) || nameTree(ec) != nameTree(in.Dist.ExportConfig()) {
+			return // another family was named (here or in a nested distribution): the probes do not apply
+		}
+		// a consistent distribution of another shape (fewer categories, other
+		// dimension) is a legitimate reading of the document; the probes of the
+		// original lie outside its domain and what LogPdf does there is not
+		// this property's subject
+		p0, _ := getParams(in.Dist)
+		p1, _ := getParams(dec)
+		if len(p0) != len(p1) || shapeOf(dec) != shapeOf(in.Dist) {
+			return
 		}
 		for _, pr := range in.Probes {
 			if _, err := distcat.LogPdf(dec, pr, t); err != nil {
